@@ -98,15 +98,9 @@ def k1(ctx, rid):
         raise core.AnchorLost('blob read/decode sites: %d' % n)
 
 
-def k2(ctx, rid):
-    prog = ctx.prog
-    ld = prog.body_of('blob::core::RawRecords::load')
-    rc = prog.body_of('blob::core::RawRecords::read_current_record')
-    if ld is None or rc is None:
-        raise core.AnchorLost('RawRecords::load / read_current_record')
-    # (a) acceptance (Ok exit of read_current_record) dominated by an extent check: a comparison of current_offset with file.size()
-    #     whose failing edge only reaches error exits, or a full read of the data
-    exits = [bb for (bb, k, _) in core.exit_defs(rc) if k in ('ok', 'fwd', 'val') and bb in rc.reachable()]
+def extent_checks(rc):
+    """(switch block, passing targets) of comparisons of `current_offset` with file.size() whose failing edge only reaches error
+    exits"""
     sizes = [c for c in rc.calls if c.name == 'size' and 'File' in c.path]
     checks = []
     for c in sizes:
@@ -127,6 +121,36 @@ def k2(ctx, rid):
                                 okt = [x for x in tg if not only_err_from(rc, x)]
                                 if len(okt) < len(tg):
                                     checks.append((j, okt))
+    return checks
+
+
+def k2(ctx, rid):
+    prog = ctx.prog
+    ld = prog.body_of('blob::core::RawRecords::load')
+    rc = prog.body_of('blob::core::RawRecords::read_current_record')
+    if ld is None or rc is None:
+        raise core.AnchorLost('RawRecords::load / read_current_record')
+    # (a) acceptance (Ok exit of read_current_record) dominated by an extent check: a comparison of current_offset with file.size()
+    #     whose failing edge only reaches error exits, or a full read of the data
+    exits = [bb for (bb, k, _) in core.exit_defs(rc) if k in ('ok', 'fwd', 'val') and bb in rc.reachable()]
+    checks = extent_checks(rc)
+    # the check may live in a helper of the same type that is `?`-ed here: its ok edge is the passing edge
+    for c in rc.calls:
+        if c.name == 'poll' or c.bb not in rc.reachable():
+            continue
+        for t in prog.resolve(c):
+            g = prog.body_of(t) if t in prog.fns else None
+            if g is None or g.id == rc.id or 'RawRecords' not in t:
+                continue
+            gc = extent_checks(g)
+            if not gc:
+                continue
+            gex = [bb for (bb, k, _) in core.exit_defs(g) if k in ('ok', 'fwd', 'val') and bb in g.reachable()]
+            gpass = [x for (j, okt) in gc for x in okt]
+            if gex and not any(e in g.reach_from([0], avoid_enter=gpass) for e in gex):
+                ob = core.ok_block(rc, c)
+                if ob is not None:
+                    checks.append((c.bb, [ob]))
     key = 'scan-extent|blob::core::RawRecords::read_current_record'
     if not checks:
         ctx.bad(rid, key, rc.where(), 'a scanned record header is accepted without comparing the end of its extent (offset after meta and data) with the file size: header+meta without data at the tail is accepted, the next session appends inside the claimed extent and loses that write at the following regeneration')
